@@ -4,6 +4,7 @@ package config
 
 import (
 	"errors"
+	"crypto/rand"
 	"io"
 	"io/fs"
 	"math/big"
@@ -58,7 +59,26 @@ func vpStat(name string) (fs.FileInfo, error) { return nil, errors.New("vp: no s
 func vpIsNotExist(err error) bool             { return true }
 
 // crypto/rand.Int: an arbitrary value in [0, max) (documented contract); draws are counted.
+var vpEntropyFails bool
+
+// vpRandReader stands in for crypto/rand.Reader: arbitrary bytes, or failure.
+type vpRandReader struct{}
+
+func (vpRandReader) Read(b []byte) (int, error) {
+	if vpEntropyFails {
+		return 0, errors.New("vp: entropy source failed")
+	}
+	for i := range b {
+		vpRandDraws++
+		b[i] = vpU8("rnd" + vpItoa(vpRandDraws))
+	}
+	return len(b), nil
+}
+
 func vpmRandInt(r io.Reader, max *big.Int) (*big.Int, error) {
+	if vpEntropyFails {
+		return nil, errors.New("vp: entropy source failed")
+	}
 	vpRandDraws++
 	v := vpU8("rnd" + vpItoa(vpRandDraws))
 	vpAssume(int64(v) < max.Int64())
@@ -159,7 +179,7 @@ func VP_C18_consistency() {
 }
 
 //vp:property C18
-//vp:bounds each of the five keys (PAA signing, PAA encryption, session, session encryption, user-token encryption) independently of length 0, 1, 31, 32 or 33 with symbolic content; user-token switch on/off; every random draw arbitrary in range
+//vp:bounds each of the five keys (PAA signing, PAA encryption, session, session encryption, user-token encryption) independently of length 0, 1, 31, 32 or 33 with symbolic content; user-token switch on/off; every random draw arbitrary in range; the entropy source working or failing
 //vp:reach replaced kept
 //vp:set budget 30 600
 func VP_C18_keys() {
@@ -169,6 +189,11 @@ func VP_C18_keys() {
 	vpIn.Server.Authentication = []string{"ntlm"}
 	vpIn.Server.Tls = "auto"
 	vpIn.Server.HostSelection = "roundrobin"
+	// the system's entropy source may fail at start-up (crypto/rand.Reader is replaced for the run)
+	vpEntropyFails = vpBool("entropy-source-fails")
+	oldReader := rand.Reader
+	rand.Reader = vpRandReader{}
+	defer func() { rand.Reader = oldReader }()
 	which := vpIntRange("which", 0, 4)
 	k32 := "0123456789abcdef0123456789abcdef"
 	keys := []string{k32, k32, k32, k32, k32}
@@ -190,6 +215,12 @@ func VP_C18_keys() {
 		if !checked {
 			continue
 		}
+		if vpEntropyFails && len(keys[i]) != 32 {
+			// no fresh key can be drawn: the gateway must not carry on with a usable-looking key
+			// (a key shorter than 32 characters is refused later by the session store / token minting)
+			vpAssert(len(g) < 32, "no-predictable-replacement-key-when-the-entropy-source-fails")
+			continue
+		}
 		vpAssert(len(g) == 32, "every-key-in-use-has-32-characters")
 		if len(keys[i]) == 32 {
 			vpAssert(g == keys[i], "a-valid-configured-key-is-kept")
@@ -206,7 +237,7 @@ func VP_C18_keys() {
 	if len(keys[which]) != 32 && (which < 4 || vpIn.Security.EnableUserToken) {
 		nrepl = 1
 	}
-	if vpSymbolic() { // the draw counter lives in the model of crypto/rand.Int
+	if vpSymbolic() && !vpEntropyFails { // the draw counter lives in the models of crypto/rand
 		vpAssert(vpRandDraws == 32*nrepl, "one-random-draw-per-generated-character")
 	}
 }
